@@ -73,7 +73,7 @@ class MemMapWorld(World):
     )
 
     def runs(self, prop, tier):
-        return {"quick": 6000, "thorough": 200000}[tier]
+        return {"quick": 20000, "thorough": 300000}[tier]
 
     def rule(self, prop):
         return ("cases = seeded call histories (20-45 calls on a pool of 2-6 maps); non-trivial = "
